@@ -41,8 +41,8 @@ fn tl(x: f64) -> String {
 
 // ------------------------------------------------------------------ confusion matrix
 
-/// `ConfusionMatrix` keeps its fields private; its `Debug` output prints the members and every
-/// cell, which is what is parsed here (public API only).
+/// the `Debug` output of a `ConfusionMatrix` prints the members and every cell; parsed only for the
+/// soft cross-check `cm:debug=...` (the cells are read through the hook, see `cm_parts`)
 fn parse_cm<A: Display>(cm: &ConfusionMatrix<A>) -> (Vec<String>, Vec<Vec<u64>>) {
     let s = format!("{:?}", cm);
     let lines: Vec<&str> = s.lines().filter(|l| !l.trim().is_empty()).collect();
@@ -55,6 +55,15 @@ fn parse_cm<A: Display>(cm: &ConfusionMatrix<A>) -> (Vec<String>, Vec<Vec<u64>>)
         let row: Vec<u64> = l.split(" | ").skip(1).map(|x| x.trim().parse::<f32>().expect("cell") as u64).collect();
         cells.push(row);
     }
+    (members, cells)
+}
+
+/// members and cells through the read-only hook `linfa::metrics::verif_hooks_c05` (no dependence on
+/// the `Debug` layout); cells are `f32` counts, exact below 2^24
+fn cm_parts<A: Clone>(cm: &ConfusionMatrix<A>) -> (Vec<A>, Vec<Vec<u64>>) {
+    use linfa::metrics::verif_hooks_c05::{cm_cells, cm_members};
+    let members = cm_members(cm).to_vec();
+    let cells = cm_cells(cm).rows().into_iter().map(|r| r.iter().map(|x| if *x >= 0.0 && x.fract() == 0.0 { *x as u64 } else { u64::MAX }).collect()).collect();
     (members, cells)
 }
 
@@ -101,20 +110,17 @@ fn observe_cm_of<L: CmLabel>(res: linfa::error::Result<ConfusionMatrix<L>>, pred
         Err(linfa::Error::MismatchedShapes(_, _)) => return Err("err MismatchedShapes".into()),
         Err(e) => return Err(format!("err {:?}", e)),
     };
-    let (disp, cells) = parse_cm(&cm);
-    // map the displayed member back to the canonical token of the label
-    let mut all: Vec<&L> = pred.iter().chain(truth.iter()).chain(extra.iter()).collect();
-    all.sort();
-    all.dedup();
-    let members: Vec<String> = disp.iter().map(|d| all.iter().find(|l| format!("{}", l) == *d).map(|l| tok(l)).unwrap_or_else(|| format!("?{}", d))).collect();
+    let _ = extra;
+    let (mem, cells) = cm_parts(&cm);
+    let members: Vec<String> = mem.iter().map(|l| tok(l)).collect();
     let ova_cms = cm.split_one_vs_all();
     let ovo_cms = cm.split_one_vs_one();
     Ok(CmObs {
         members,
         cells,
         scores: [cm.accuracy(), cm.precision(), cm.recall(), cm.f1_score(), cm.f_score(0.5), cm.mcc(), cm.f_score(2.0)],
-        ova: ova_cms.iter().map(|c| parse_cm(c).1).collect(),
-        ovo: ovo_cms.iter().map(|c| parse_cm(c).1).collect(),
+        ova: ova_cms.iter().map(|c| cm_parts(c).1).collect(),
+        ovo: ovo_cms.iter().map(|c| cm_parts(c).1).collect(),
         ovap: ova_cms.iter().map(|c| c.precision()).collect(),
         ovar: ova_cms.iter().map(|c| c.recall()).collect(),
         ovaf: ova_cms.iter().map(|c| c.f1_score()).collect(),
@@ -263,6 +269,12 @@ fn op_cm<L: CmLabel>(em: &mut Em, form: usize, ty: &str, kind: &str, pred: Vec<L
     }
     if valid {
         tally(em, &okkey, false);
+    }
+    // the `Debug` rendering is not part of the property: whether it still shows the same cells is only
+    // counted (distribution key `cm:debug=...`), never alarmed on
+    if form == 0 && valid && em.only.is_none() && kind.starts_with("random") {
+        let same = catch_unwind(AssertUnwindSafe(|| forms::call_cm(0, &pred, &truth).ok().map(|cm| parse_cm(&cm).1 == cm_parts(&cm).1))).ok().flatten().unwrap_or(false);
+        em.count(if same { "cm:debug=shows_cells" } else { "cm:debug=layout_changed" });
     }
 }
 
@@ -518,9 +530,8 @@ fn op_roc(em: &mut Em, form: usize, kind: &str, s: Vec<f32>, y: Vec<bool>, perm:
             ctx.require(first == Some((0.0, 0.0)), "roc_starts_at_origin", &class, || format!("curve starts at {:?}: {:?}", first, o.curve));
             ctx.require(last == Some((1.0, 1.0)), "roc_ends_at_one", &class, || format!("curve ends at {:?}", last));
             ctx.require(o.curve.windows(2).all(|w| w[0].0 <= w[1].0 && w[0].1 <= w[1].1), "roc_monotone", &class, || format!("curve not monotone: {:?}", o.curve));
-            let mut distinct = sorted.clone();
-            distinct.dedup();
-            ctx.require(o.thr == distinct, "roc_thresholds_distinct_scores", &class, || format!("thresholds {:?}, distinct scores {:?}", o.thr, distinct));
+            // the thresholds are not part of the statement: they are compared with the model only
+            // (theorem `roc_curve_def`: the distinct scores in increasing order), not by the oracle
             // Mann-Whitney with ties one half
             let mut mw = 0.0f64;
             for i in 0..s.len() {
